@@ -10,7 +10,7 @@ US = [F(1), F(3, 4), F(3, 2)]
 CLAUSES = {
     "C03": ["margin", "pool_mean", "B", "reduction", "exc:make_assertion:*", "exc:set_margin_from_cvrs:*",
             "exc:set_tally_pool_means:*", "exc:overstatement_assorter:*"],
-    "C06": ["data", "bound", "installed", "range", "exc:mvrs_to_data:*", "exc:set_p_values:*", "exc:make_assertion:*"],
+    "C06": ["data", "bound", "installed", "installed:*", "range", "exc:mvrs_to_data:*", "exc:set_p_values:*", "exc:make_assertion:*"],
     "C08": ["worst", "exc:overstatement_assorter:*"],
 }
 MC_INV = {"C03": ["CvrLemma", "Reduction"], "C06": ["DataInBound"], "C08": ["PhantomWorstCase"]}
@@ -108,6 +108,8 @@ def run(pid, tier):
     rng = random.Random(core.seed() * 15485863 + 11)
     comparison_part(pid, tier, rep, rng)
     if pid == "C08":
-        from . import phantoms
+        from . import phantoms, check_manifest
         phantoms.phantoms_part(tier, rep, rng)
+        # the phantom batch of a prepared manifest and the phantom manual records of sampled phantom cards
+        check_manifest.manifest_part(rep, tier, rng, want=["prep", "phantom_mvrs", "exc:*"])
     return rep.finish()
